@@ -481,7 +481,7 @@ class R2:
     """No hazardous use downstream of a non-returning rejection."""
     rid = "C10-R2"
     text = ("a value rejected by cvm::error() on a branch that does not leave the function is not used "
-            "afterwards as a vector index, an integer divisor or an allocation size")
+            "afterwards as a vector index, an integer divisor, an allocation size or the bound of a loop that subscripts")
 
     SIZE_METHODS = ("resize", "assign", "reserve")
 
@@ -629,7 +629,7 @@ class R2:
                     key = "%s|%s|%s" % (f.q, kind, desc)
                     results[key] = (False, f.loc(node),
                                     "%s `%s` is reachable after the rejection of %s reported at line %d without leaving the function"
-                                    % ({"index": "vector index into", "div": "integer division by", "size": "allocation size"}[kind],
+                                    % ({"index": "vector index into", "div": "integer division by", "size": "allocation size", "bound": "bound of a subscripting loop"}[kind],
                                        desc, ", ".join(sorted(re_strip(h) for h in hit)), e.get("l", 0)),
                                     "error call at %s does not return; guards: %s" % (
                                         f.loc(e), "; ".join("%s is %s" % (X.text(f.nodes[c], f), p) for c, p in gs)), f.q)
@@ -669,6 +669,16 @@ class R2:
                 cs = X.kids(n)
                 if cs:
                     out.append(("size", n, self.slice_keys(f, cs[0], res, defs), "new[%s]" % X.text(cs[0], f)))
+            elif k == "ForStmt" and n["c"][1] is not None and n["c"][-1] is not None:
+                # the bound of a loop whose body subscripts something with the loop variable's range
+                body = n["c"][-1]
+                if any(x["k"] == "ArraySubscriptExpr" or (x["k"] == "CXXOperatorCallExpr" and x.get("op") == "[]") for x in f.walk(body)):
+                    c = X.strip(n["c"][1])
+                    # only bounds that are plain integer arithmetic on variables (a bound that is itself a size()/length() call is
+                    # re-evaluated against the container on every iteration)
+                    if c["k"] == "BinaryOperator" and c.get("op") in ("<", "<=", "!=") and \
+                            not any(x["k"] in ("CallExpr", "CXXMemberCallExpr") for x in f.walk(X.kids(c)[1])):
+                        out.append(("bound", n["c"][1], self.slice_keys(f, X.kids(c)[1], res, defs), X.text(X.kids(c)[1], f)))
         return out
 
     def hazard_guarded(self, f, kind, node, hit, res):
@@ -926,8 +936,50 @@ def r7(F, rep):
             rep.add("C10-R7", key, f.loc(u), "%s: `%s[...]` indexed below %s after being filled from a keyword; at this point its length %s" % (
                 f.q, vk, what, "equals the bound on every path" if ok else " / ".join(say[b] for b in bad)), ok,
                 detail="; ".join(fl.notes[:3]) or "no validation of the length against the bound lies on every path from the keyword to this subscript", func=f.q)
-    if n < 30:
-        raise AnalysisBroken("C10-R7: only %d subscripts of keyword-filled vectors with a foreign bound found" % n)
+    # atom groups filled from index groups in the same function and subscripted under another group's size
+    import re as _re
+    ng = 0
+    for f in F.funcs.values():
+        if "/src/" not in f.file or f.body is None or f.is_lambda:
+            continue
+        filled = {}
+        for c in X.calls(f):
+            if c["k"] == "CXXMemberCallExpr" and X.callee_name(c) == "add_index_group" and X.receiver(c) is not None:
+                r = X.strip(X.receiver(c))
+                if r["k"] == "DeclRefExpr" and r.get("st") == "local":
+                    filled.setdefault(X.re_strip(X.key(r, f)), []).append(c)
+        if len(filled) < 2:
+            continue
+        flows = {}
+        for u in f.walk():
+            if not (u["k"] == "CXXOperatorCallExpr" and u.get("op") == "[]"):
+                continue
+            a = X.call_args(u)
+            vk = X.re_strip(X.key(a[0], f))
+            if vk not in filled:
+                continue
+            ub = upper_bound(F, f, a[1])
+            if ub is None:
+                continue
+            mo = _re.match(r"^\((.*) - \d+\)$", ub)
+            base = mo.group(1) if mo else ub
+            other = [g for g in filled if g != vk and base == g + ".size()"]
+            if not other:
+                continue
+            ng += 1
+            fk = (vk, base)
+            if fk not in flows:
+                flows[fk] = SizeFlow(F, f, vk, base, {SE})
+                flows[fk].track_flag(u)
+                flows[fk].learn_flags()
+            st = sizes(flows[fk].state_at(u))
+            bad = sorted(st - {SQ})
+            say = {SE: "may be empty", SO: "may have a different number of atoms"}
+            rep.add("C10-R7", "%s|%s[<%s]" % (f.q, vk, base), f.loc(u), "%s: group `%s` (filled from an index group) is indexed below %s; at this point it %s" % (
+                f.q, vk, ub, "has as many atoms as that group on every path" if not bad else " / ".join(say[b] for b in bad)), not bad,
+                detail="an index file that defines one group and not the other, or groups of different sizes, makes the subscript run past the end", func=f.q)
+    if n < 30 or ng < 1:
+        raise AnalysisBroken("C10-R7: only %d subscripts of keyword-filled vectors / %d of index-group-filled groups with a foreign bound found" % (n, ng))
     rep.count("keyword_vector_subscripts", n)
 
 
